@@ -140,9 +140,20 @@ pub fn c31_keyed<'a>(a: S<'a, (i64, i64)>) -> S<'a, C31Keyed> {
 /// (buffered ++ batch, leader snapshot, buffered state as seen at the start of the slice)
 pub type C31Buffer = (Vec<i64>, Option<i64>, Vec<i64>);
 
-/// The documented buffering idiom: `use::state_null` stream + `use::batch` + optional `use::snapshot`.
+/// The documented buffering idiom (`use::state_null` stream + `use::batch` + a leader snapshot): payloads are
+/// buffered until a leader is known. The leader is a `Singleton<Option<_>>` rather than the `Optional` of the
+/// docs because the simulator supports neither a top-level `max()` on an unbounded stream ("Reduce with optional
+/// intermediates is not yet supported in simulator") nor snapshots of unbounded `Optional`s ("batch not
+/// implemented for kind Optional").
 pub fn c31_buffer<'a>(payloads: S<'a, i64>, leaders: S<'a, i64>) -> S<'a, C31Buffer> {
-    let leader = leaders.max();
+    let leader = leaders.fold(
+        q!(|| None::<i64>),
+        q!(|acc, x| {
+            if acc.is_none_or(|a| x > a) {
+                *acc = Some(x);
+            }
+        }),
+    );
     sliced! {
         let mut unsent = use::state_null::<Stream<i64, _, _, TotalOrder>>();
         let batch = use::batch(payloads, nondet!(/** the simulator explores the slices */));
@@ -150,9 +161,9 @@ pub fn c31_buffer<'a>(payloads: S<'a, i64>, leaders: S<'a, i64>) -> S<'a, C31Buf
 
         let carried = unsent.clone().collect_vec();
         let all = unsent.chain(batch);
-        unsent = all.clone().filter_if(latest.clone().is_none());
+        unsent = all.clone().filter_if(latest.clone().map(q!(|l| l.is_none())));
         all.collect_vec()
-            .zip(latest.into_singleton())
+            .zip(latest)
             .zip(carried)
             .map(q!(|((a, l), c)| (a, l, c)))
             .into_stream()
